@@ -8,6 +8,7 @@ import (
 	"context"
 	"errors"
 	"fmt"
+	"math"
 	"strings"
 	"time"
 
@@ -29,6 +30,7 @@ const (
 	OpArmGateable // next ComposeFrom returns a Gateable composite
 	OpArmSend     // next Sender.Send returns an error
 	OpSetExp      // assign Filter.Expiration on the live filter (Tick field: 0 -> 0 (default 10s), 1 -> E/2, 2 -> E, 3 -> 2E)
+	OpArmNil      // next ComposeFrom returns a nil payload (a composite that carries everything in its event type)
 )
 
 // Tick sizes are expressed relative to the expiration E.
@@ -72,6 +74,8 @@ func (o Op) String() string {
 		return "armGateableComposite"
 	case OpArmSend:
 		return "armSendErr"
+	case OpArmNil:
+		return "armNilPayloadComposite"
 	case OpSetExp:
 		return [...]string{"setExp(0=default)", "setExp(E/2)", "setExp(E)", "setExp(2E)"}[o.Tick%4]
 	}
@@ -81,11 +85,12 @@ func (o Op) String() string {
 type Config struct {
 	DefaultExpiration bool // leave Filter.Expiration zero (10s default)
 	BrokerInit        bool
+	HugeExp           bool // Expiration = the largest Duration ("never expire"); ticks stay relative to one second
 }
 
 func Describe(cfg Config, ops []Op) string {
 	var sb strings.Builder
-	fmt.Fprintf(&sb, "cfg{defaultExp=%v broker=%v}", cfg.DefaultExpiration, cfg.BrokerInit)
+	fmt.Fprintf(&sb, "cfg{defaultExp=%v broker=%v hugeExp=%v}", cfg.DefaultExpiration, cfg.BrokerInit, cfg.HugeExp)
 	for _, o := range ops {
 		sb.WriteByte(' ')
 		sb.WriteString(o.String())
@@ -138,6 +143,9 @@ type rec struct {
 	sends       []SendCall
 	armCompose  bool
 	armGateable bool
+	armNil      bool
+	lastToks    []int // argument of the most recent ComposeFrom call
+	lastNil     bool  // ... which returned a nil payload
 	armSend     bool
 }
 
@@ -176,6 +184,12 @@ func (e *ev) ComposeFrom(events []*eventlogger.Event) (eventlogger.EventType, in
 		return "composite", &ev{id: "composite", r: r, tok: -2}, nil
 	}
 	r.composes = append(r.composes, c)
+	r.lastToks, r.lastNil = append([]int(nil), c.Toks...), false
+	if r.armNil {
+		r.armNil = false
+		r.lastNil = true
+		return "composite-without-payload", nil, nil
+	}
 	return "composite", &composite{toks: append([]int(nil), c.Toks...)}, nil
 }
 
@@ -190,6 +204,8 @@ func (s *sender) Send(_ context.Context, _ eventlogger.EventType, payload interf
 	}
 	if p, ok := payload.(*composite); ok {
 		c.Toks = p.toks
+	} else if payload == nil && s.r.lastNil {
+		c.Toks = s.r.lastToks // the composite that has no payload
 	} else {
 		c.Foreign = true
 	}
@@ -221,11 +237,18 @@ func Run(cfg Config, ops []Op) *Obs {
 		exp = time.Second
 		f.Expiration = exp
 	}
+	if cfg.HugeExp {
+		f.Expiration = time.Duration(math.MaxInt64)
+	}
 	if cfg.BrokerInit {
 		f.Broker = snd
 	}
 	o := &Obs{Cfg: cfg, Exp: exp}
 	curExp := exp
+	if cfg.HugeExp {
+		curExp = time.Duration(math.MaxInt64)
+		o.Exp = curExp
+	}
 	ctx := context.Background()
 	tok := 0
 	for _, op := range ops {
@@ -253,6 +276,9 @@ func Run(cfg Config, ops []Op) *Obs {
 				if c, ok := out.Payload.(*composite); ok {
 					oo.RetIsComp = true
 					oo.RetComp = c.toks
+				} else if out.Payload == nil && r.lastNil {
+					oo.RetIsComp = true
+					oo.RetComp = r.lastToks
 				}
 			}
 		case OpTick:
@@ -280,6 +306,8 @@ func Run(cfg Config, ops []Op) *Obs {
 			r.armGateable = true
 		case OpArmSend:
 			r.armSend = true
+		case OpArmNil:
+			r.armNil = true
 		case OpSetExp:
 			switch op.Tick % 4 {
 			case 0:
@@ -296,7 +324,7 @@ func Run(cfg Config, ops []Op) *Obs {
 		o.Ops = append(o.Ops, oo)
 	}
 	// final probe: clock frozen, recording sender, no armed failures
-	r.armCompose, r.armGateable, r.armSend = false, false, false
+	r.armCompose, r.armGateable, r.armSend, r.armNil = false, false, false, false
 	r.composes, r.sends = nil, nil
 	f.Broker = snd
 	if err := f.FlushAll(ctx); err != nil {
